@@ -814,7 +814,7 @@ func (vc *FnVC) evalCall(env *Env, c ECall) (*Val, error) {
 		if sortOf(args[0].T) == "Slice" {
 			t = sx("s.base", t)
 		}
-		return &Val{T: tBool, S: sx(">", t, vc.get(env.old, "$alloc"))}, nil
+		return &Val{T: tBool, S: sx(">", sx("ref.root", t), vc.get(env.old, "$alloc"))}, nil
 	case "typeof": // typeof(iface) == tag("pkg.Type")
 		if err := evalArgs(); err != nil {
 			return nil, err
